@@ -494,7 +494,7 @@ def main(argv=None) -> int:
     # a third one: a theorem put behind an antecedent that mentions the same metavariable WITHOUT the constraint the theorem's
     # own occurrences carry (one metavariable number, two constraint sets in one proved term), then instantiated
     wpool = (rm.evar(0), rm.svar(0), rm.mv(0, E=(0,)), rm.mv(0, S=(0,)))
-    known4 = closure(chk, 4 if not thorough else 5, 9 if not thorough else 10, 0, 1500000 if not thorough else 6000000, agg,
+    known4 = closure(chk, 4 if not thorough else 5, 9, 0, 1500000 if not thorough else 6000000, agg,
                      seed_theorems, pool=wpool, unary_only=True, tag='weaken', weaken=(rm.imp(rm.mv(0), rm.mv(0)), rm.mv(0)))
     for t, w in known4.items():
         theorems.setdefault(t, w)
